@@ -63,6 +63,7 @@ func main() {
 		phase := fs.String("phase", "", "")
 		file := fs.String("file", "", "")
 		verbose := fs.Bool("v", false, "")
+		prelude := fs.String("prelude", "", "JSON array of scenarios to execute first in this process")
 		fs.Parse(os.Args[2:])
 		p, ok := core.Lookup(*prop)
 		if !ok {
@@ -78,6 +79,29 @@ func main() {
 		if err != nil {
 			fmt.Fprintln(os.Stderr, "scenario does not decode:", err)
 			os.Exit(2)
+		}
+		if *prelude != "" {
+			pb, err := os.ReadFile(*prelude)
+			if err != nil {
+				fmt.Fprintln(os.Stderr, err)
+				os.Exit(2)
+			}
+			var pre []json.RawMessage
+			if err := json.Unmarshal(pb, &pre); err != nil {
+				fmt.Fprintln(os.Stderr, "prelude does not decode:", err)
+				os.Exit(2)
+			}
+			for i, praw := range pre {
+				psc, err := p.Decode(praw)
+				if err != nil {
+					fmt.Fprintf(os.Stderr, "prelude scenario %d does not decode: %v\n", i, err)
+					os.Exit(2)
+				}
+				_, _ = core.SafeExecute(p, psc, *phase, core.NewLog(false))
+			}
+			if *verbose {
+				fmt.Printf("  | (executed %d prelude scenarios in this process)\n", len(pre))
+			}
 		}
 		log := core.NewLog(*verbose)
 		res, err := core.SafeExecute(p, sc, *phase, log)
@@ -112,8 +136,9 @@ func main() {
 	case "selftest":
 		fs := flag.NewFlagSet("selftest", flag.ExitOnError)
 		runs := fs.Int("runs", 64, "")
+		dump := fs.String("dump", "", "write the reference (index, scenario hash, log hash, verdict) lines to this file")
 		fs.Parse(os.Args[2:])
-		os.Exit(core.SelfTest(env(), fs.Args(), *runs))
+		os.Exit(core.SelfTest(env(), fs.Args(), *runs, *dump))
 	default:
 		fmt.Fprintln(os.Stderr, "unknown command", os.Args[1])
 		os.Exit(2)
